@@ -7,6 +7,7 @@ import (
 	"strconv"
 
 	"verif/mc/explore"
+	_ "verif/mc/gx"
 	_ "verif/mc/hist"
 )
 
